@@ -32,7 +32,7 @@ Lemma shape_check : shape_ok shape_now = true.
 Proof. vm_compute. reflexivity. Qed.
 
 (* prefix rules: only those exempted by an OPEN finding (C19-debug-public) may exist *)
-Lemma no_prefix_bypass_check : unexempt_prefixes open_findings prefixes = [].
+Lemma no_prefix_skips_the_mux_check : unexempt_prefixes open_findings prefixes = [].
 Proof. vm_compute. reflexivity. Qed.
 
 Lemma dispatch_nil : forall g path, dispatch g [] path = None.
@@ -54,7 +54,7 @@ Proof.
   destruct (prefix_ok open_findings p) eqn:E; [reflexivity|].
   assert (In p (unexempt_prefixes open_findings prefixes)) as Hf.
   { unfold unexempt_prefixes. apply filter_In. split; [exact Hin|]. rewrite E. reflexivity. }
-  rewrite no_prefix_bypass_check in Hf. destruct Hf.
+  rewrite no_prefix_skips_the_mux_check in Hf. destruct Hf.
 Qed.
 
 Lemma exempt_prefix_known : forall open p, exempt_prefix open p = true ->
@@ -69,7 +69,7 @@ Proof.
 Qed.
 
 Lemma repaired_dispatch_is_mux : forall g path, dispatch g (unexempt_prefixes open_findings prefixes) path = None.
-Proof. intros. rewrite no_prefix_bypass_check. reflexivity. Qed.
+Proof. intros. rewrite no_prefix_skips_the_mux_check. reflexivity. Qed.
 
 Lemma cred_facts_check : cred_facts_ok cred_facts_now = true /\ cred_facts_match_model cred_facts_now = true.
 Proof. vm_compute. split; reflexivity. Qed.
